@@ -1,7 +1,7 @@
 #!/bin/bash
 # usage: demo_with_seed.sh <seed-name> [base-commit] [native|miri] ["<cargo test selection, default: demo>"]
 # Applies patch.diff and demo.diff of a seeded change to a scratch worktree, runs the demonstration
-# tests (every test whose name contains "demo"; `miri` runs them under cargo +nightly miri with 16
+# tests (every test whose name contains "demo"; `miri` runs them under cargo +nightly miri with 16 (MIRI_SEEDS)
 # seeds instead) with the patch and again with the patch reverted, and records both outcomes in
 # seeded/<name>/demo_confirm.txt. Development aid.
 set -u
@@ -29,7 +29,7 @@ for f in $d/demo_*.rs; do
 done
 run() {
   if [ "$mode" = miri ]; then
-    MIRIFLAGS="-Zmiri-disable-isolation -Zmiri-strict-provenance -Zmiri-many-seeds=0..16" CARGO_TARGET_DIR=/tmp/seedwt/demo-target-miri-$name cargo +nightly miri test --offline -p nexosim --features verif-hooks $sel 2>&1 | grep -E "^test .*(ok|FAILED)$|^test result|Undefined Behavior|FAILING SEED|panicked at" | sort | uniq -c | head -12
+    MIRIFLAGS="-Zmiri-disable-isolation -Zmiri-strict-provenance -Zmiri-many-seeds=0..${MIRI_SEEDS:-16}" CARGO_TARGET_DIR=/tmp/seedwt/demo-target-miri-$name cargo +nightly miri test --offline -p nexosim --features verif-hooks $sel 2>&1 | grep -E "^test .*(ok|FAILED)$|^test result|Undefined Behavior|FAILING SEED|panicked at" | sort | uniq -c | head -12
   else
     CARGO_TARGET_DIR=/tmp/seedwt/demo-target-$name timeout 1500 cargo test --offline -p nexosim --features verif-hooks $sel 2>&1 | grep -E "^test .*(ok|FAILED)$|^test result: .* [1-9][0-9]* (passed|failed)" | sort | uniq -c | head -16
   fi
